@@ -691,6 +691,23 @@ def check_palette(ctx: Ctx, entries, colors, bright, order):
         g2 = term.g[0][2]
         if g2[1:] != (None, None, frozenset()):
             ctx.violation("sgr-decodes", f"C17/sgr-decodes/leak/{feat}", dict(case0, name=name), f"the unattributed cell after {name!r} shows fg={g2[1]} bg={g2[2]} flags={sorted(g2[3])}")
+        # two more frames on the same screen, the second one an incremental update whose changed row starts with unattributed text
+        # (the terminal is still in whatever rendition the previous frame ended with)
+        try:
+            scr.draw_screen((cols, 1), TextCanvas([b"abcd"], [[(None, 2), (name, 2)]], maxcol=cols))
+            term.feed(out.take())
+            scr.draw_screen((cols, 1), TextCanvas([b"xbcd"], [[(None, 2), (name, 2)]], maxcol=cols))
+            term.feed(out.take())
+        except Exception as e:
+            ctx.violation("draw-raises", f"C17/draw-raises/{exc_site(e)}", dict(case0, name=name, frames=3), f"incremental draw_screen with attribute {name!r} raised {type(e).__name__}: {e}")
+            continue
+        g0, g3 = term.g[0][0], term.g[0][2]
+        if g0[0] != "x" or g0[1:] != (None, None, frozenset()):
+            ctx.violation("sgr-decodes", f"C17/sgr-decodes/leak/incremental/{feat}", dict(case0, name=name, frames=3),
+                          f"after an incremental update the unattributed cell 0 shows {g0[0]!r} fg={g0[1]} bg={g0[2]} flags={sorted(g0[3])} (the row ends in {name!r})")
+        if g3[0] != "c" or g3[1] not in fgs or g3[2] != ebg or g3[3] != eflags:
+            ctx.violation("sgr-decodes", f"C17/sgr-decodes/incremental/{feat}", dict(case0, name=name, frames=3),
+                          f"after an incremental update the cell carrying {name!r} shows {g3[0]!r} fg={g3[1]} bg={g3[2]} flags={sorted(g3[3])}")
     scr.stop()
 
 
